@@ -192,15 +192,59 @@ theorem genesis_state_exact_disjoint (root : (Bytes → Option Bytes) → Nat) (
       exact absurd hkey.symm (k4 x hmem)
     | none => rfl
 
+/-- the committed content does not depend on the root function: with another `root'` the same
+view is committed and the header differs only in carrying `root'` of that content -/
+theorem genesisCommit_root_irrelevant (root root' : (Bytes → Option Bytes) → Nat) (c : Config)
+    (allocs : List Alloc) (hwf : WF c allocs) (m : KV) (hdr : Header)
+    (hok : genesisCommit root c allocs = .ok (m, hdr)) :
+    genesisCommit root' c allocs = .ok (m, { hdr with stateRoot := root' (content m) }) := by
+  rcases genesisCommit_cases root c allocs hwf with ⟨_, herr⟩ | ⟨hle, m0, _, _, hm⟩
+  · rw [herr] at hok; cases hok
+  rcases genesisCommit_cases root' c allocs hwf with ⟨hov, _⟩ | ⟨_, m0', _, _, hm'⟩
+  · omega
+  simp only [] at hm hm'
+  rw [hm] at hok
+  injection hok with hok
+  injection hok with hm3 hh
+  subst hm3; subst hh
+  -- both runs start from the same `initializeState` result
+  have h0 : m0 = m0' := by
+    have e1 : initializeState c.balancePrefix allocs = .ok m0 := by
+      unfold genesisCommit at hm
+      cases hi : initializeState c.balancePrefix allocs with
+      | error e => rw [hi] at hm; cases hm
+      | ok x =>
+        rw [hi] at hm
+        simp only [insert_height, insert_timestamp, insert_fee _ _ hwf.2] at hm
+        injection hm with hm; injection hm with hm _
+        simp only [List.cons.injEq, true_and] at hm
+        rw [hm]
+    have e2 : initializeState c.balancePrefix allocs = .ok m0' := by
+      unfold genesisCommit at hm'
+      cases hi : initializeState c.balancePrefix allocs with
+      | error e => rw [hi] at hm'; cases hm'
+      | ok x =>
+        rw [hi] at hm'
+        simp only [insert_height, insert_timestamp, insert_fee _ _ hwf.2] at hm'
+        injection hm' with hm'; injection hm' with hm' _
+        simp only [List.cons.injEq, true_and] at hm'
+        rw [hm']
+    rw [e1] at e2
+    injection e2
+  subst h0
+  exact hm'
+
 /-- **C27 (root)** — the genesis block's `StateRoot` is the root of exactly the committed
-content, its height is the configured genesis height (0) and it has no transactions; and,
-merkledb roots identifying content (`root` injective), any view with the header's root has
-that content. -/
+content, its height is the configured genesis height (0) and it has no transactions; and, if
+the root function identifies the committed content (no other map has the same root — the
+collision-freeness merkledb provides, assumed here only *at this content*; see the
+satisfiability example below), every map with the header's root is the specified state. -/
 theorem genesis_root_is_header_root (root : (Bytes → Option Bytes) → Nat) (c : Config)
     (allocs : List Alloc) (hwf : WF c allocs) (m : KV) (hdr : Header)
     (hok : genesisCommit root c allocs = .ok (m, hdr)) :
     hdr.stateRoot = root (content m) ∧ hdr.height = 0 ∧ hdr.numTxs = 0 ∧
-    (Function.Injective root → ∀ f, root f = hdr.stateRoot → f = spec c allocs) := by
+    ((∀ f, root f = root (content m) → f = content m) →
+      ∀ f, root f = hdr.stateRoot → f = spec c allocs) := by
   have hex := genesis_state_exact root c allocs hwf m hdr hok
   rcases genesisCommit_cases root c allocs hwf with ⟨_, herr⟩ | ⟨_, m0, _, _, hm⟩
   · rw [herr] at hok; cases hok
@@ -211,8 +255,7 @@ theorem genesis_root_is_header_root (root : (Bytes → Option Bytes) → Nat) (c
     subst hm3; subst hh
     refine ⟨rfl, rfl, rfl, ?_⟩
     intro hinj f hf
-    have := hinj hf
-    rw [this]
+    rw [hinj f hf]
     funext k
     exact hex k
 
@@ -372,6 +415,23 @@ example : ∃ m hdr, genesisCommit (fun _ => 7) c0 [⟨[9], 5⟩, ⟨[9], 7⟩, 
     ∧ content m (balanceKey [3] [9]) = some (be64 12)
     ∧ content m (balanceKey [3] [8]) = some (be64 0) := ⟨_, _, rfl, rfl, rfl⟩
 example : genesisCommit (fun _ => 7) c0 [⟨[9], maxU64⟩, ⟨[8], 1⟩] = .error .overflow := rfl
+/-- the hypothesis of `genesis_root_is_header_root`'s last clause is satisfiable together with a
+successful genesis: a root function that identifies the committed content exists -/
+example : ∃ (root : (Bytes → Option Bytes) → Nat) (m : KV) (hdr : Header),
+    genesisCommit root c0 [⟨[9], 5⟩, ⟨[9], 7⟩, ⟨[8], 0⟩] = .ok (m, hdr) ∧
+    (∀ f, root f = root (content m) → f = content m) := by
+  classical
+  have hwf : WF c0 [⟨[9], 5⟩, ⟨[9], 7⟩, ⟨[8], 0⟩] := by
+    refine ⟨?_, rfl⟩
+    intro al h; simp at h; rcases h with rfl | rfl | rfl <;> simp [maxU64]
+  obtain ⟨m, hdr, h⟩ := (overflow_rejected (fun _ => 0) c0 _ hwf).2 (by simp [total, maxU64])
+  refine ⟨fun f => if f = content m then 0 else 1, m, _,
+    genesisCommit_root_irrelevant _ _ c0 _ hwf m hdr h, ?_⟩
+  intro f hf
+  by_cases hfe : f = content m
+  · exact hfe
+  · simp [hfe] at hf
+
 example : WF c0 [⟨[9], 5⟩, ⟨[9], 7⟩, ⟨[8], 0⟩] ∧ KeysDisjoint c0 [⟨[9], 5⟩, ⟨[9], 7⟩, ⟨[8], 0⟩] := by
   refine ⟨⟨?_, rfl⟩, ?_⟩
   · intro al h; simp at h; rcases h with rfl | rfl | rfl <;> simp [maxU64]
